@@ -5,9 +5,9 @@ PROP = dict(
     technique='property-based testing (Hypothesis-generated cases run in an ASan-built shim, one process per case; independent Python decoders as oracle)',
     rule='Hypothesis cases executed by an ASan+UBSan shim, one process per case. Images: 6 writers (PPM, PGM, PFM float/vec3f/vec3fa/vec4f), '
          'sizes 1..64 x 1..64 incl. single row/column, widths up to 1024 and very wide rows {2047..8193}, pixels copied into a heap block of exactly w*h*sizeof(pixel) bytes; '
-         'oracle = independent Python decoder (header, payload length, selected channels, row order). Traces: 0..8 recording threads (optionally '
+         'oracle = independent Python decoder (header, payload length, selected channels, row order); images of 1..16 MiB (thorough: 64..256 MiB, power-of-two and one-row-off geometries) are produced inside the shim and decoded with numpy. Traces: 0..8 recording threads (optionally '
          'the main thread), balanced begin/end nesting <= 6 with optional unclosed tail, markers, counters, event counts from '
-         '{0,1,2,17,0..60,8191,8192,8193,16385}, optional thread/process names; oracle = json.loads + per-thread sequence comparison. '
+         '{0,1,2,17,0..60,8191,8192,8193,16385}, optional thread/process names, recordMemUse(); size steering: the log of one thread is grown to just below S bytes and saved after EVERY further event until S+window, S = 2^12..2^20 (thorough: 2^12..2^23, 3*2^20, 5*2^20), every saved file parsed; oracle = json.loads + per-thread sequence comparison. '
          'non-trivial: non-square image with >= 2 rows and columns and pairwise distinct pixels; trace with >= 2 recording threads, or a thread '
          'crossing the 8192-event chunk boundary, or nesting depth >= 2; distinct by SHA-1 of the case',
     floor=dict(quick=150, thorough=1500),
